@@ -166,7 +166,8 @@ def install(I):
     # ---- filtering comprehension  [x for x in <iterable> if cond(x)]  with elt == target
     def comp_filter(ctx, e, sc):
         g = e.generators[0]
-        if len(e.generators) != 1 or not (isinstance(e.elt, ast.Name) and isinstance(g.target, ast.Name) and e.elt.id == g.target.id):
+        same = isinstance(e.elt, ast.Name) and isinstance(g.target, ast.Name) and e.elt.id == g.target.id
+        if len(e.generators) != 1:
             raise OutOfSubset("filtering comprehension of an unsupported shape: %s" % ast.unparse(e))
         n, elem = lib.symbolic_iter(ctx, sc.iterable)
         k = z3.Int(I.reg.fresh('fk'))
@@ -179,7 +180,8 @@ def install(I):
             for c in g.ifs:
                 t = truthy(ctx.eval(c))
                 conds.append(zbool(t))
-            ek = to_z3(elem(k))
+            # the collected value: the loop variable itself, or any scalar expression of the loop variables ([i for i, t in enumerate(..) if ..])
+            ek = to_z3(elem(k)) if same else to_z3(ctx.eval(e.elt))
         except MergeFail:
             raise OutOfSubset("branching filter condition: %s" % ast.unparse(e))
         finally:
